@@ -270,6 +270,68 @@ def call_case(variant, limits, R=1, timeout=600):
     return Case(cid, PROP, cfg, declare, fn, claims, timeout=timeout, env=_env_factory([n + "_0_0" for n in chain]))
 
 
+def elementwise_case(variant, pattern, timeout=600):
+    """element_wise=True: component r is evaluated at its own point x_r against its OWN limits [a_r, b_r] (R = 2 measures with
+    individual limits).  pattern 'own': a0 < x0 < b0 < a1 < x1 < b1 (each point inside only its own interval);
+    'out1': a0 < x0 < b0 < x1 < a1 < b1 (second point below its interval); 'shared': one interval [a, b], x0 inside, x1 above."""
+    R = 2
+    cid = f"C20/call-elementwise/{variant}/{pattern}/R{R}"
+    cfg = dict(what="element-wise evaluation: component r at its own point against its own limits", variant=variant, pattern=pattern, R=R)
+    chain = {"own": ["a0", "x0", "b0", "a1", "x1", "b1"], "out1": ["a0", "x0", "b0", "x1", "a1", "b1"], "shared": ["a0", "x0", "b0", "x1"]}[pattern]
+
+    def declare(b):
+        b.pos("s", (R,)); b.free("nu", (R, 1)); b.free("lb", (R,))
+        for n in chain:
+            b.free(n, (1, 1))
+        for p, q in zip(chain[:-1], chain[1:]):
+            b.assume(lambda ctx, vc, p=p, q=q: f"(< {p}_0_0 {q}_0_0)")
+        b.phi_slots(2 * R + 1)
+
+    def fn(**A):
+        import jax.numpy as jnp
+        from gaussian_toolbox.experimental import truncated_measure as tm
+        with patched_norm():
+            u = _build_measure(A)
+            if pattern == "shared":
+                lo, hi = A["a0"], A["b0"]
+            else:
+                lo = jnp.concatenate([A["a0"], A["a1"]], axis=0); hi = jnp.concatenate([A["b0"], A["b1"]], axis=0)
+            if variant == "measure":
+                t = tm.TruncatedGaussianMeasure(measure=u, lower_limit=lo, upper_limit=hi)
+            elif variant == "pdf_from_measure":
+                t = tm.TruncatedGaussianMeasure(measure=u, lower_limit=lo, upper_limit=hi).get_density()
+            else:
+                t = tm.TruncatedGaussianPDF(measure=u, lower_limit=lo, upper_limit=hi)
+            xs = jnp.concatenate([A["x0"], A["x1"]], axis=0)
+            base = tm.TruncatedGaussianMeasure(measure=u, lower_limit=lo, upper_limit=hi)
+            return {"vals": t(xs, element_wise=True), "table": t(xs), "F0": base.integrate("1")}
+
+    def claims(I, O, ops):
+        F0 = O["F0"]
+        lims = [("a0", "b0"), ("a0", "b0")] if pattern == "shared" else [("a0", "b0"), ("a1", "b1")]
+        if not ops.symbolic:
+            F0 = np.array([_quad_moment(I, 0, float(I[lims[r][0]][0, 0]), float(I[lims[r][1]][0, 0]), r) for r in range(R)])
+        pos = {n: k for k, n in enumerate(chain)}
+
+        def inside(r, xn):
+            lo, hi = lims[r]
+            return pos[lo] < pos[xn] < pos[hi]
+        ew = ops.zeros((R,)); tab = ops.zeros((R, R))
+        for r in range(R):
+            for j, xn in enumerate(("x0", "x1")):
+                v = ops.zero()
+                if inside(r, xn):
+                    v = ops.exp(_ln_u(ops, I, I[xn][0, 0], r))
+                    if variant != "measure":
+                        v = v / F0[r]
+                tab[r, j] = v
+            ew[r] = tab[r, r]
+        return [("element_wise value of component r = u_r(x_r) inside its own interval, else 0", O["vals"], ew),
+                ("table value [r, n] = u_r(x_n) inside the interval of component r, else 0", O["table"], tab)]
+
+    return Case(cid, PROP, cfg, declare, fn, claims, timeout=timeout, env=_env_factory([n + "_0_0" for n in chain]))
+
+
 def cases(tier, seed=0):
     K = 4 if tier == "quick" else 6
     out = [moments_case("ab", K), moments_case("abc", min(K, 4)), moments_case("lo", K), moments_case("hi", K), moments_case("split", K),
@@ -280,4 +342,6 @@ def cases(tier, seed=0):
         for limits in ("ab", "lo", "hi"):
             out.append(call_case(variant, limits))
         out.append(call_case(variant, "ab", R=2))
+        for pattern in ("own", "out1", "shared"):
+            out.append(elementwise_case(variant, pattern))
     return out
